@@ -306,7 +306,10 @@ def c05f(prog, rep):
             parent = prog.body(b.npath.rsplit("::{closure", 1)[0])
             lvl = None
             for d in (parent.calls() if parent is not None else []):
-                if tgt(d) == DWC and len(d.args) >= 3 and d.args[2]["k"] in ("copy", "move") and norm(parent.locals[d.args[2]["place"]["l"]].get("closure") or "") == b.npath:
+                # do_with_context(context, action), or any other parser method of that shape (`with_pushed_context(context, action)`):
+                # (self, a ParserContext, this closure)
+                if tgt(d).startswith(P) and len(d.args) == 3 and d.args[2]["k"] in ("copy", "move") and not d.args[2]["place"]["p"] \
+                        and norm(parent.locals[d.args[2]["place"]["l"]].get("closure") or "") == b.npath:
                     lvl = level_of_context(parent, d.args[1])
             n += 1
             if lvl == 0:
